@@ -145,11 +145,12 @@ def subOp (s : State) (rets : List (List TaskId)) (toks : List String) : Option 
     let w ← w.toNat?
     let ids ← parseTidsSep "," ids
     pure (s.retractResponse w ids, rets)
-  | ["sched", sn, mn, pf] => do
+  | ["sched", now, sn, mn, pf] => do
+    let now ← dropPrefix "now=" now >>= String.toNat?
     let sn ← dropPrefix "sn=" sn >>= parseSn
     let mn ← dropPrefix "mn=" mn >>= parseMn
     let pf ← dropPrefix "pf=" pf >>= parsePf
-    pure (s.schedule { sn := sn, mn := mn, prefillOrders := pf }, rets)
+    pure (s.schedule { now := now, sn := sn, mn := mn, prefillOrders := pf }, rets)
   | _ => none
 
 def runOps (s : State) (rets : List (List TaskId)) : List (List String) → Out → Option (M (State × Out))
